@@ -38,15 +38,22 @@ pub mod oracle {
     fn fresh() -> u64 {
         let v: u64 = kani::any();
         let hi = (v >> 32) as u32;
-        unsafe {
-            let mut r: u32 = 2;
-            while r <= LEMIRE_MAX {
-                let lo = hi.wrapping_mul(r);
-                let thresh = r.wrapping_neg() % r;
-                kani::assume(lo >= thresh);
-                r += 1;
-            }
+        // unrolled (no loop: harness unwind bounds must not depend on the model)
+        macro_rules! lemire {
+            ($r:expr) => {
+                if unsafe { LEMIRE_MAX } >= $r {
+                    let r: u32 = $r;
+                    kani::assume(hi.wrapping_mul(r) >= r.wrapping_neg() % r);
+                }
+            };
         }
+        lemire!(2);
+        lemire!(3);
+        lemire!(4);
+        lemire!(5);
+        lemire!(6);
+        lemire!(7);
+        lemire!(8);
         kani::assume(v != 0);
         v
     }
@@ -65,18 +72,23 @@ pub mod oracle {
     /// stream id for a seed key; equal keys give the same stream
     pub fn stream(kind: u8, key: [u64; 4]) -> usize {
         unsafe {
-            let mut i = 0;
-            while i < NUSED {
-                if KIND[i] == kind
-                    && KEYS[i][0] == key[0]
-                    && KEYS[i][1] == key[1]
-                    && KEYS[i][2] == key[2]
-                    && KEYS[i][3] == key[3]
-                {
-                    return i;
-                }
-                i += 1;
+            macro_rules! probe {
+                ($i:expr) => {
+                    if $i < NUSED
+                        && KIND[$i] == kind
+                        && KEYS[$i][0] == key[0]
+                        && KEYS[$i][1] == key[1]
+                        && KEYS[$i][2] == key[2]
+                        && KEYS[$i][3] == key[3]
+                    {
+                        return $i;
+                    }
+                };
             }
+            probe!(0);
+            probe!(1);
+            probe!(2);
+            probe!(3);
             assert!(NUSED < NS, "oracle model: too many streams for this harness");
             let id = NUSED;
             KIND[id] = kind;
@@ -92,11 +104,11 @@ pub mod oracle {
         unsafe {
             assert!(id < NUSED, "oracle model: bad stream id");
             assert!(ctr < ND, "oracle model: too many draws for this harness");
-            // cells are created in order, so that the table has no holes
-            while FILLED[id] <= ctr {
-                let c = FILLED[id];
-                DRAWS[id][c] = fresh();
-                FILLED[id] = c + 1;
+            // cells are created strictly in order (no holes, no loop)
+            assert!(ctr <= FILLED[id], "oracle model: draws must be consumed in order");
+            if FILLED[id] == ctr {
+                DRAWS[id][ctr] = fresh();
+                FILLED[id] = ctr + 1;
                 NDRAWN += 1;
             }
             DRAWS[id][ctr]
@@ -135,18 +147,8 @@ impl SeedableRng for Xoshiro256PlusPlus {
     type Seed = [u8; 32];
 
     fn from_seed(seed: [u8; 32]) -> Xoshiro256PlusPlus {
-        let mut key = [0u64; 4];
-        let mut w = 0;
-        while w < 4 {
-            let mut b = [0u8; 8];
-            let mut i = 0;
-            while i < 8 {
-                b[i] = seed[8 * w + i];
-                i += 1;
-            }
-            key[w] = u64::from_le_bytes(b);
-            w += 1;
-        }
+        let w = |o: usize| u64::from_le_bytes([seed[o], seed[o + 1], seed[o + 2], seed[o + 3], seed[o + 4], seed[o + 5], seed[o + 6], seed[o + 7]]);
+        let key = [w(0), w(8), w(16), w(24)];
         Xoshiro256PlusPlus {
             id: oracle::stream(1, key),
             ctr: 0,
